@@ -73,6 +73,31 @@ add("C04", "E3 sock-mc (sequential, complete product)", "model_checking",
     "Trusted: the transcribed RFC table.",
     "exhaustive enumeration of the handshake configuration space on the real code against a reference predicate")
 
+add("C05", "E2 fq-mc + E3 sock-mc", "model_checking",
+    "Explicit-state model checking of the REAL FairQueue: breadth-first search over event histories (insert, data arrival, stream "
+    "waker firing, close, remove, poll, and polls during which further events run re-entrantly in the window where poll_next has a "
+    "stream checked out and the lock released), every transition replayed on a fresh queue, states merged on a canonical form; the "
+    "bounded configurations (k<=3 streams, <=2-3 items) reach fixpoints, i.e. their complete reachable state space. Invariants on "
+    "every transition: exactly-once in-order delivery per stream, no swallowed item, no live stream dropped, closed streams drained. "
+    "Socket level: 6 receiving socket types with 1-3 raw peers under every schedule within 2 (thorough 3) deviations over scheduling "
+    "order, library yield points and deliveries landing inside pipe reads; per-peer projection of recv results must equal the "
+    "reference decode of what the peer wrote.",
+    "DESIGN.md 5.5",
+    "State merging: tickets are only compared, so rank-normalised; fingerprints are 128-bit hashes of the canonical state. "
+    "E3 atomicity: one poll between yield points is atomic. Trusted: parking_lot, BinaryHeap, HashMap, scc.",
+    "explicit-state BFS to fixpoint over the real fair queue + stateless deviation-bounded DFS over real sockets")
+
+add("C06", "E2 fq-mc (+ E3 socket-level quiescence oracle)", "model_checking",
+    "Same explicit-state search as C05 with liveness oracles: on every reachable state, (1) a parked, un-woken receiver and a stored "
+    "stream with an available item or end-of-stream imply a pending wake and a published receiver waker; (2) the fair continuation "
+    "(fire every due wake, poll whenever woken) drains every stored stream. Dedicated fairness configurations with a busy stream "
+    "pre-loaded with 2(n-1)+3 items bound deliveries to other streams while a stream is ready by 2(n-1) and report the maximum "
+    "observed (n-1). Liveness needs an adversarial scheduler: the events that land inside the lock-free window are in the space. "
+    "Socket level: the C05 scenarios judged for 'complete message undelivered at quiescence while recv is pending'.",
+    "DESIGN.md 5.6",
+    "Same merging argument as C05. Memory orderings inside parking_lot are not explored.",
+    "explicit-state BFS to fixpoint with per-state liveness (fair-drain) oracle on the real fair queue")
+
 PENDING = ["C01","C02","C03","C04","C05","C06","C07","C08","C09","C10","C11","C12","C13","C14","C15","C16","C17","C18","C20"]
 
 def main():
